@@ -182,11 +182,13 @@ def main(tier, seed):
     quick = tier == "quick"
     jobs = []
     nsh = 6 if quick else 12
-    with ThreadPoolExecutor(max_workers=7) as ex:
+    with ThreadPoolExecutor(max_workers=12) as ex:
         if quick:
-            jobs.append(ex.submit(tlc_cases, rep, "lattice", workers=6, part="lattice", maxmant=32, downexp=6, maxexp=8))
+            for sh in range(4):
+                jobs.append(ex.submit(tlc_cases, rep, "lattice%d" % sh, workers=1, part="lattice", maxmant=32, downexp=6, maxexp=8, shard=sh, nshards=4))
         else:
-            jobs.append(ex.submit(tlc_cases, rep, "lattice", workers=8, part="lattice", maxmant=1024, downexp=8, maxexp=20, timeout=20000))
+            for sh in range(8):
+                jobs.append(ex.submit(tlc_cases, rep, "lattice%d" % sh, workers=1, part="lattice", maxmant=1024, downexp=8, maxexp=20, timeout=20000, shard=sh, nshards=8))
         for s in range(nsh):
             jobs.append(ex.submit(tlc_cases, rep, "bounds%d" % s, part="bounds", shard=s, nshards=nsh))
         for s in range(4 if quick else 16):
